@@ -591,7 +591,10 @@ let rec run_case (kind : string) (body : sexp list) : string * string =
           | "iter" ->
               let n = int_of (List.hd (args prod)) in
               let items = List.init n (fun i -> VZ (z_of_int i)) in
-              let (pulls, tr) = run_iter_case two os other items in
+              (* an optional chain between the iterator and its input of the two-input operator: (pre U...) *)
+              let pre = (match List.find_opt (function List (Atom "pre" :: _) -> true | _ -> false) body with
+                  | Some p -> expand_all (List.map uop_of (args p)) | None -> []) in
+              let (pulls, tr) = if pre = [] then run_iter_case two os other items else run_iter_case_pre pre two os other items in
               Printf.sprintf "pulls=%d %s" (int_of_nat pulls) (show_trace tr)
           | "stream" ->
               let polls = List.map (fun b ->
